@@ -45,6 +45,9 @@ ItemsFrom(m, k) == IF k > Len(m) THEN <<>> ELSE (IF m[k] # 0 THEN <<k, m[k]>> EL
 RECURSIVE PopAll(_, _)
 PopAll(m, ks) == IF ks = <<>> THEN m ELSE PopAll([m EXCEPT ![Head(ks)] = 0], Tail(ks))
 
+NoDup(ks) == \A x, y \in 1..Len(ks) : x # y => ks[x] # ks[y]
+FirstOcc(ks, x) == \A y \in 1..(x - 1) : ks[y] # ks[x]
+
 Exp(cfg, S, e) ==
   LET m    == S.c[e.loc]
       nk   == Len(m)
@@ -69,10 +72,13 @@ Exp(cfg, S, e) ==
                             ELSE IF Len(e.rs) = 2 /\ e.rs[1] \in Dom(m)
                                  THEN [put([m EXCEPT ![e.rs[1]] = 0]) EXCEPT !.rs = <<e.rs[1], m[e.rs[1]]>>]
                                  ELSE [same EXCEPT !.rs = <<0, 0>>]
-    [] e.op = "popkeys"  -> IF \A x \in ToSet(e.ks) : m[x] # 0
+    \* popkeys pops the keys in order: a key that is missing, or listed a second time, is "not found"; without a
+    \* default that is a KeyError and - like every failing operation - nothing has been removed
+    [] e.op = "popkeys"  -> IF (\A x \in ToSet(e.ks) : m[x] # 0) /\ NoDup(e.ks)
                             THEN [put(PopAll(m, e.ks)) EXCEPT !.rs = [x \in 1..Len(e.ks) |-> m[e.ks[x]]]]
-                            ELSE [keyerr EXCEPT !.any = TRUE]   \* (what was popped before the failure is not constrained)
-    [] e.op = "popkeysd" -> [put(PopAll(m, e.ks)) EXCEPT !.rs = [x \in 1..Len(e.ks) |-> IF m[e.ks[x]] # 0 THEN m[e.ks[x]] ELSE e.d]]
+                            ELSE keyerr
+    [] e.op = "popkeysd" -> [put(PopAll(m, e.ks)) EXCEPT !.rs = [x \in 1..Len(e.ks) |->
+                                   IF m[e.ks[x]] # 0 /\ FirstOcc(e.ks, x) THEN m[e.ks[x]] ELSE e.d]]
     [] e.op = "setdefault" -> IF m[e.k] # 0 THEN [same EXCEPT !.ri = m[e.k]]
                               ELSE [put([m EXCEPT ![e.k] = e.v]) EXCEPT !.ri = e.v]
     [] e.op \in {"update", "updatekw"} -> put([m EXCEPT ![e.k] = e.v, ![e.k2] = e.v2])
